@@ -19,7 +19,7 @@ DIMS = {
     "op": (["val", "grad", "divcurl", "dx0", "dxlast", "hess", "comp"], ["grad", "dx0", "comp"]),
     "factor": (["f"] + [x for x in forms.FACTORS if x != "f"], ["one", "fg", "c0", "sqrt", "cond", "gradf", "diam", "normal", "xpoly"]),
     "wrap": (["plain", "condarg", "sum2", "neg"], ["condarg", "sum2"]),
-    "quad": (["auto", "deg1", "deg6", "vertex", "GLL3", "two"], ["deg1", "two"]),
+    "quad": (["auto", "deg1", "deg6", "vertex", "GLL3", "two", "two1"], ["deg1", "two", "two1"]),
     "subdomain": (["all", "id", "tuple", "all+id"], ["tuple", "all+id"]),
     "restr": (["++", "+-", "-+", "--", "jj", "aa", "ja"], ["+-", "-+", "jj", "ja"]),
     "scalar": (["float64", "float32", "complex128", "complex64"], ["complex128"]),
